@@ -158,8 +158,9 @@ Inductive every_level (P : rnode -> cbor -> Prop) : rnode -> cbor -> Prop :=
     every_level P n env'.
 
 (* one level: same tag, the same keys in the same order, and every entry other than the authentication wrapper (key 2) and the
-   dependencies named in the configuration identical *)
+   dependencies named in the configuration identical (or nothing changed at all) *)
 Definition frame_level (n : rnode) (env' : cbor) : Prop :=
+  env' = rn_env n \/
   exists t kvs kvs',
     rn_env n = CTag t (CMap kvs) /\ env' = CTag t (CMap kvs') /\ map fst kvs' = map fst kvs
     /\ forall k, py_eqb k (CUint 2) = false -> (forall dn, In dn (dep_names n) -> py_eqb k (CText dn) = false) -> dict_get kvs' k = dict_get kvs k.
